@@ -16,8 +16,10 @@ MUTANTS = [
     M("stream-closed-in-helper", X + "util/encryption.py", "def is_ooxml_encrypted(file_like: io.BytesIO) -> bool:\n    file_like.seek(0)", "def is_ooxml_encrypted(file_like: io.BytesIO) -> bool:\n    file_like.flush()\n    file_like.seek(0)", "C06-INPUT"),
     M("stream-opened-for-append", X + "archive_extractor.py", '        with zipfile.ZipFile(file_like, "r") as zf:\n            # Single pass', '        with zipfile.ZipFile(file_like, "a") as zf:\n            # Single pass', "C06-INPUT"),
     M("encoder-no-rewind", X + "serialization.py", "    position = buffer.tell()\n    buffer.seek(0)\n", "    position = buffer.tell()\n", "C06-STREAM"),
+    M("get-bytes-returns-stored-stream", D, "    def get_bytes(self) -> io.BytesIO:\n        if self.data is None:\n            return io.BytesIO()\n        # A fresh stream per call: closing or writing to the returned stream\n        # must not change what the result holds\n        return io.BytesIO(self.data.getvalue())\n", "    def get_bytes(self) -> io.BytesIO:\n        if self.data is None:\n            return io.BytesIO()\n        self.data.seek(0)\n        return self.data\n", "C06-PURE"),
 ]
 TWINS = [
+    T("get-bytes-copy-via-read", D, "    def get_bytes(self) -> io.BytesIO:\n        if self.data is None:\n            return io.BytesIO()\n        # A fresh stream per call: closing or writing to the returned stream\n        # must not change what the result holds\n        return io.BytesIO(self.data.getvalue())\n", "    def get_bytes(self) -> io.BytesIO:\n        if self.data is None:\n            return io.BytesIO()\n        copy = io.BytesIO(self.data.getvalue())\n        return copy\n"),
     T("sorted-via-variable", X + "open_office/odt_extractor.py", "    return sorted(styles)\n", "    ordered = sorted(styles)\n    return ordered\n"),
     T("observer-builds-fresh-list", D, "        \"\"\"All text from this slide combined.\"\"\"\n        parts = []\n        if self.title:\n            parts.append(self.title)\n        parts.extend(self.body_text)\n        parts.extend(self.other_text)\n        return \"\\n\".join(parts)\n\n\n@dataclass\nclass OdpContent", "        \"\"\"All text from this slide combined.\"\"\"\n        parts = list(self.body_text)\n        if self.title:\n            parts.insert(0, self.title)\n        parts.extend(self.other_text)\n        return \"\\n\".join(parts)\n\n\n@dataclass\nclass OdpContent"),
 ]
